@@ -754,6 +754,8 @@ class Interp:
                 return PropObj(base, attr)  # the property object itself (`Cls.prop.fset(obj, value)`)
             mth = self.repo.resolve(base, attr)
             if mth is not None:
+                if getattr(mth, "is_classmethod", False):
+                    return Closure(mth, self_obj=base)  # `Cls.create(...)`: the class is the first argument
                 return Closure(mth)
         from .loader import Module
         if isinstance(base, Module):
@@ -1059,6 +1061,10 @@ class Interp:
                 if len(args) > 1:
                     return args[1]
                 self.on_raise(Sym("exc", "StopIteration"), node)
+            if isinstance(seq, Count):
+                v = seq.start  # next(counter): the counter moves on (iteration continues from there)
+                seq.start += seq.step
+                return v
             raise AnalysisError("next() on a non-list iterator")
         if name == "property":
             return DynProp(args[0] if args else kwargs.get("fget"), args[1] if len(args) > 1 else kwargs.get("fset"))
